@@ -458,6 +458,9 @@ def extract_docstring(node: Str) -> Tuple[int, str]:
         # TODO: remove me when python3.7 is not supported
         value = node.s
     lineno = extract_docstring_linenum(node)
+    # A lone surrogate (written as an escape such as "\\udc80" in the source) cannot be encoded
+    # when the page is written: show it the way it was written instead of aborting the run.
+    value = value.encode('utf-8', 'backslashreplace').decode('utf-8')
     return lineno, inspect.cleandoc(value)
 
 
